@@ -11,6 +11,8 @@
 //                                               sv <v> / se <c>   fn returns future<T>::set_value(v) / set_exception(c)  (what the static factories do)
 //   t c <act>...                         thread 0: constructs the object (mode), hands one copy to every `h` thread, then runs its program
 //   t h <act>...                         handle thread; act = copy | drop | peek | coro | sync | cb   (first await only; needs a handle)
+//                                        spellings: sync = wait(); fwait = force_wait(); ssync = sync()+value(); fsync = force_sync()+value();
+//                                        join = join()+value(); conv = operator Base&, then future::wait(); cpeek = peek through operator Base&
 //   t r value <v> | exc <c> | drop | dtor   the resolver thread (promise called / promise destroyed)
 //   sched <tid>...
 //   end
@@ -66,6 +68,7 @@ template <> struct P<counted> {
 // The state is one make_shared block. The sanitizer's malloc/free hooks record the allocations made while the
 // object is being constructed; afterwards the block that contains the state is known and the step that releases it
 // prints `freed t<tid>` (no hook into the library, default Base).
+extern "C" void __sanitizer_set_death_callback(void (*callback)(void));
 extern "C" int __sanitizer_install_malloc_and_free_hooks(void (*malloc_hook)(const volatile void *, size_t),
                                                          void (*free_hook)(const volatile void *));
 static struct { const volatile void *p; size_t n; } g_allocs[256];
@@ -178,10 +181,26 @@ struct Scn {
             else if (a == "drop") H.pop_back();
             else if (a == "peek") {
                 if (H.back().ready()) obs(t, "peek", observe([&]() -> decltype(auto) { return H.back().value(); }));
+            } else if (a == "cpeek") {
+                // the same poll through `operator Base &` (the future itself)
+                future<T> &f = H.back();
+                if (f.ready()) obs(t, "peek", observe([&]() -> decltype(auto) { return f.value(); }));
             } else if (!awaited[t]) {
                 awaited[t] = 1;
                 if (a == "coro") coro_waiter(t, H.back()).detach();
                 else if (a == "sync") obs(t, "sync", observe([&]() -> decltype(auto) { return H.back().wait(); }));
+                // other spellings of the blocking observer (same atomic operations, the thread holds its handle meanwhile)
+                else if (a == "fwait") obs(t, "sync", observe([&]() -> decltype(auto) { return H.back().force_wait(); }));
+                else if (a == "ssync") obs(t, "sync", observe([&]() -> decltype(auto) { H.back().sync(); return H.back().value(); }));
+                else if (a == "fsync") obs(t, "sync", observe([&]() -> decltype(auto) { H.back().force_sync(); return H.back().value(); }));
+                else if (a == "join") {
+                    // join() waits and throws what value() would throw; if it returns, the value is read afterwards
+                    bool returned = false;
+                    std::string r = observe([&]() -> decltype(auto) { H.back().join(); returned = true; return H.back().value(); });
+                    bool is_value = r == "v" || r.rfind("v:", 0) == 0;
+                    obs(t, "sync", returned == is_value ? r : "join-returned-but-" + r);
+                }
+                else if (a == "conv") obs(t, "sync", observe([&]() -> decltype(auto) { future<T> &f = H.back(); return f.wait(); }));
                 else if (a == "cb") {
                     auto c = new cb_ctx(this, t, H.back());
                     if (c->awt.await_ready() || !c->awt.await_suspend(&cb_fn, c)) {
@@ -377,6 +396,7 @@ int main() {
         std::cout << "case " << hdr[1] << std::endl;
         pid_t pid = fork();
         if (pid == 0) {
+            __sanitizer_set_death_callback(+[] { std::cout.flush(); });   // a crashing case keeps the lines printed before the crash
             alarm(20);
             run_case(hdr, lines);
             std::cout.flush();
